@@ -186,6 +186,34 @@ fn check_list(list: &[(&'static str, Class)], ctx: &Ctx) -> Stats {
         let rr = refint::parse_rule(&yaml);
         let mut t = false;
         let mut f = false;
+        // the count must survive the optimiser as well (key-level lists are re-batched by
+        // shake and rewrite)
+        for sw in [eng::SW_DEFAULT, 0b0100, 0b0010] {
+            // quantifiers over identifiers are only compared with coalesce on: without it the
+            // optimiser merges the identifier's entries on their own (recorded C01 finding)
+            if label.contains('X') && sw & 1 == 0 {
+                continue;
+            }
+            if let Ok((o, _)) = eng::optimise_with(&r, sw, &[]) {
+                for (i, d) in ctx.docs.iter().enumerate() {
+                    let a = eng::matches(&r, d);
+                    let b = eng::matches(&o, d);
+                    st.transitions += 1;
+                    st.evaluations += 1;
+                    if a != b {
+                        let count = singles.iter().filter(|v| v[i]).count();
+                        st.push_violation(Violation {
+                            signature: format!("{}:{}x{}:count-changes-after-optimise({})", label, cname, k, eng::sw_name(sw)),
+                            witness: format!(
+                                "{} as loaded {:?}, after optimise({}) {:?} ; members true = {}/{} ; rule {} doc {}",
+                                label, a, eng::sw_name(sw), b, count, k, one_line(&yaml), d.show()
+                            ),
+                            replay: json!({"kind":"optimise","rule_yaml":yaml,"sw_bits":sw,"hash_order_choices":[],"document":crate::report::mobj_to_json(d)}),
+                        });
+                    }
+                }
+            }
+        }
         for (i, d) in ctx.docs.iter().enumerate() {
             let got3 = eng::val3(&r, d).unwrap_or(2);
             let got = got3 == 1;
